@@ -1,3 +1,282 @@
-(* placeholder while the pipeline is brought up *)
-From PM Require Import Base.Bytes Gen.GenRfp Model.Redfish Spec.RedfishSpec Model.RedfishView.
-Theorem C19_placeholder : fail_waiters_initial = true. Proof. reflexivity. Qed.
+(* C19 -- redfishpower honours the plug hierarchy and always answers (src/redfishpower/redfishpower.c, plugs.c).
+   Theorems about the executable model PM.Model.Redfish (tied to the source by Gen/GenRfp.v -- command words, every
+   stdout format string, the F17/F20 repair flags -- and by the R-RFP correspondence with the real
+   `redfishpower --test-mode`), stated against the documented rules PM.Spec.RedfishSpec.
+
+   [run_line hlc st line sched] = one line typed at the prompt, then shell-loop passes until the three command lists are
+   empty again (the next prompt); [sched] = how many delayed status polls are due in each pass (ANY list: the theorems
+   quantify over it); [hlc] = hostlist_create on the argument (any function: C14's subject); fuel = [fuel_for], a
+   function of the number of queued messages and of the table size.  [Ok (st', false)] with [at_prompt st'] means: no
+   exit, no abort, no memory error, no hang, the three lists empty -- the prompt is printed next.
+
+   FULL    : C19_rules_single and its corollaries (one target, ANY depth, any failing hosts, any schedule),
+             C19_on_parent_and_child_refused (any number of targets), C19_survives_* (error reports), C19_dangling_ancestor.
+   OPEN    : the same refinement for SEVERAL targets on one line (C19_rules below, in a comment).
+   REFUTED : with the F20 repair flags false a waiter is lost (C19_no_lost_waiter_needs_repair). *)
+From Coq Require Import List NArith ZArith Bool Permutation.
+From PM Require Import Base.Bytes Base.Outcome Gen.GenRfp Model.Redfish Spec.RedfishSpec Model.RedfishView
+  Proofs.RedfishBase Proofs.RedfishSteps Proofs.RedfishSingle Proofs.RedfishMgmt Proofs.RedfishRules Proofs.RedfishTheorems
+  Proofs.RedfishPhased Proofs.RedfishFaults Proofs.RedfishReach Proofs.RedfishExamples.
+Import ListNotations.
+
+(* ------------------------------------------------------------------------------------------------------------------
+   Hierarchy rules, one target at any depth: the helper prints exactly one result line, the one the documented rules
+   prescribe; the statuses afterwards are the ones the rules prescribe; it is back at its prompt. *)
+Theorem C19_rules_single : forall hlc st ln sched c x,
+  at_prompt st -> ts_covers st -> single_power_line hlc st ln c x -> name_valid (s_tab st) x = true ->
+  in_domain st c [x] = true -> (c = COff -> closed_tab (s_tab st) = true) ->
+  exists st', run_line hlc st ln sched = Ok (st', false) /\ at_prompt st' /\ same_cfg st' st /\
+              map fst (results st') = [TResult x] /\
+              map snd (results st') = fst (expected_of st c [x]) /\
+              same_status (statmap_of (s_tstat st')) (snd (expected_of st c [x])) /\
+              spec_line hlc st ln = Some (expected_of st c [x]).
+Proof. exact rules_single. Qed.
+Example C19_rules_single_nonvacuous :
+  (* three levels R -> M -> L, R and M on: `off L` is carried out, with the poll released only in the third pass *)
+  at_prompt ex_mid /\ ts_covers ex_mid /\ single_power_line ex_hlc ex_mid (bs "off L"%string) COff (bs "L"%string) /\
+  name_valid (s_tab ex_mid) (bs "L"%string) = true /\ in_domain ex_mid COff [bs "L"%string] = true /\ closed_tab (s_tab ex_mid) = true /\
+  depth (forest_of (s_tab ex_mid)) (bs "L"%string) = 2%nat /\
+  (exists st', run_line ex_hlc ex_mid (bs "off L"%string) [0; 0; 0; 1]%nat = Ok (st', false) /\ out_text st' = [bs "L: ok"%string ++ [LF]]).
+Proof.
+  split; [apply at_prompt_b; reflexivity|]. split; [apply ts_covers_b; reflexivity|].
+  split; [exists (bs "off"%string), (bs "L"%string), []; repeat split|].
+  repeat (split; [vm_compute; reflexivity|]). eexists. split; vm_compute; reflexivity.
+Qed.
+Print Assumptions C19_rules_single.
+
+(* "a descendant of an ancestor that is not on reports that ancestor's off/unknown/error state" *)
+Theorem C19_descendant_reports_ancestor : forall hlc st ln sched x a s,
+  at_prompt st -> ts_covers st -> single_power_line hlc st ln CStat x -> name_valid (s_tab st) x = true ->
+  in_domain st CStat [x] = true ->
+  blocker (forest_of (s_tab st)) (s_fail st) (statmap_of (s_tstat st)) x = Some (a, s) ->
+  exists st', run_line hlc st ln sched = Ok (st', false) /\ at_prompt st' /\
+              map snd (results st') = [line x (word s)] /\ same_status (statmap_of (s_tstat st')) (statmap_of (s_tstat st)).
+Proof. exact descendant_reports_ancestor. Qed.
+Example C19_descendant_reports_ancestor_nonvacuous :
+  (* T sits below S whose host h3 fails: T is reported "error"; L below M below R, all off: L is reported "off" *)
+  blocker (forest_of (s_tab ex_mid)) (s_fail ex_mid) (statmap_of (s_tstat ex_mid)) (bs "T"%string) = Some (bs "S"%string, StErr) /\
+  in_domain ex_mid CStat [bs "T"%string] = true /\
+  blocker (forest_of (s_tab ex_off)) (s_fail ex_off) (statmap_of (s_tstat ex_off)) (bs "L"%string) = Some (bs "R"%string, StOff) /\
+  (exists st', run_line ex_hlc ex_mid (bs "stat T"%string) [] = Ok (st', false) /\ out_text st' = [bs "T: error"%string ++ [LF]]).
+Proof. repeat (split; [vm_compute; reflexivity|]). eexists. split; vm_compute; reflexivity. Qed.
+Print Assumptions C19_descendant_reports_ancestor.
+
+(* "'on' below a non-on ancestor is refused naming the dependency" *)
+Theorem C19_on_below_non_on_refused : forall hlc st ln sched x a s,
+  at_prompt st -> ts_covers st -> single_power_line hlc st ln COn x -> name_valid (s_tab st) x = true ->
+  in_domain st COn [x] = true ->
+  blocker (forest_of (s_tab st)) (s_fail st) (statmap_of (s_tstat st)) x = Some (a, s) ->
+  exists st', run_line hlc st ln sched = Ok (st', false) /\ at_prompt st' /\
+              map snd (results st') = [dependency_line (forest_of (s_tab st)) SpOn x a s] /\
+              same_status (statmap_of (s_tstat st')) (statmap_of (s_tstat st)).
+Proof. exact on_below_non_on_refused. Qed.
+Example C19_on_below_non_on_refused_nonvacuous :
+  in_domain ex_off COn [bs "L"%string] = true /\
+  blocker (forest_of (s_tab ex_off)) (s_fail ex_off) (statmap_of (s_tstat ex_off)) (bs "L"%string) = Some (bs "R"%string, StOff) /\
+  (exists st', run_line ex_hlc ex_off (bs "on L"%string) [] = Ok (st', false) /\
+               out_text st' = [bs "L: cannot perform on, dependency off (host=h0 plug=R)"%string ++ [LF]]).
+Proof. repeat (split; [vm_compute; reflexivity|]). eexists. split; vm_compute; reflexivity. Qed.
+Print Assumptions C19_on_below_non_on_refused.
+
+(* "'off' below an off ancestor is ok" *)
+Theorem C19_off_below_off_ok : forall hlc st ln sched x a,
+  at_prompt st -> ts_covers st -> single_power_line hlc st ln COff x -> name_valid (s_tab st) x = true ->
+  in_domain st COff [x] = true -> closed_tab (s_tab st) = true ->
+  blocker (forest_of (s_tab st)) (s_fail st) (statmap_of (s_tstat st)) x = Some (a, StOff) ->
+  exists st', run_line hlc st ln sched = Ok (st', false) /\ at_prompt st' /\
+              map snd (results st') = [line x (bs "ok"%string)] /\ same_status (statmap_of (s_tstat st')) (statmap_of (s_tstat st)).
+Proof. exact off_below_off_ok. Qed.
+Example C19_off_below_off_ok_nonvacuous :
+  in_domain ex_off COff [bs "L"%string] = true /\ closed_tab (s_tab ex_off) = true /\
+  blocker (forest_of (s_tab ex_off)) (s_fail ex_off) (statmap_of (s_tstat ex_off)) (bs "L"%string) = Some (bs "R"%string, StOff) /\
+  (exists st', run_line ex_hlc ex_off (bs "off L"%string) [] = Ok (st', false) /\ out_text st' = [bs "L: ok"%string ++ [LF]]).
+Proof. repeat (split; [vm_compute; reflexivity|]). eexists. split; vm_compute; reflexivity. Qed.
+Print Assumptions C19_off_below_off_ok.
+
+(* "powering a parent off leaves its descendants off" *)
+Theorem C19_off_cascade : forall hlc st ln sched x,
+  at_prompt st -> ts_covers st -> single_power_line hlc st ln COff x -> name_valid (s_tab st) x = true ->
+  in_domain st COff [x] = true -> closed_tab (s_tab st) = true ->
+  blocker (forest_of (s_tab st)) (s_fail st) (statmap_of (s_tstat st)) x = None ->
+  smem (host_of (forest_of (s_tab st)) x) (s_fail st) = false ->
+  exists st', run_line hlc st ln sched = Ok (st', false) /\ at_prompt st' /\
+              map snd (results st') = [line x (bs "ok"%string)] /\
+              forall n, n = x \/ descendant (forest_of (s_tab st)) n x = true -> st_get (statmap_of (s_tstat st')) n = StOff.
+Proof. exact off_cascade. Qed.
+Example C19_off_cascade_nonvacuous :
+  (* R, M, L on: `off R` takes M and L (two levels below) along *)
+  in_domain ex_on COff [bs "R"%string] = true /\ closed_tab (s_tab ex_on) = true /\
+  st_get (statmap_of (s_tstat ex_on)) (bs "L"%string) = StOn /\ descendant (forest_of (s_tab ex_on)) (bs "L"%string) (bs "R"%string) = true /\
+  (exists st', run_line ex_hlc ex_on (bs "off R"%string) [] = Ok (st', false) /\ st_get (statmap_of (s_tstat st')) (bs "L"%string) = StOff).
+Proof. repeat (split; [vm_compute; reflexivity|]). eexists. split; vm_compute; reflexivity. Qed.
+Print Assumptions C19_off_cascade.
+
+(* ------------------------------------------------------------------------------------------------------------------
+   Error handling: reported, and the helper is back at its prompt. *)
+(* any line that is not stat/on/off (management commands with bad indices, malformed ranges, count mismatches, wrong
+   usage, unknown words, empty lines) *)
+Theorem C19_survives_management : forall hlc st ln sched,
+  at_prompt st -> (forall w args, argv ln = w :: args -> cmd_of_word w = None) ->
+  exists st' q, run_line hlc st ln sched = Ok (st', q) /\ at_prompt st'.
+Proof. exact mgmt_line_returns. Qed.
+Example C19_survives_management_nonvacuous :
+  exists st', run_line ex_hlc ex_mid (bs "setplugs Qbad 9223372036854775808"%string) [] = Ok (st', false) /\
+              out_text st' = [bs "setplugs: invalid hostindex 9223372036854775808 specified"%string ++ [LF]].
+Proof. eexists. split; vm_compute; reflexivity. Qed.
+Print Assumptions C19_survives_management.
+
+(* malformed range on a stat/on/off line (F1: `stat x[2-1]`; hostlist_create returns NULL after the repair) *)
+Theorem C19_survives_malformed_range : forall hlc st ln sched w a rest c,
+  at_prompt st -> argv ln = w :: a :: rest -> cmd_of_word w = Some c -> hlc a = None ->
+  exists st', run_line hlc st ln sched = Ok (st', false) /\ at_prompt st' /\ same_cfg st' st /\ s_tstat st' = s_tstat st /\
+              out_text st' = [bs "illegal hosts input"%string ++ [LF]].
+Proof. exact malformed_range_reported. Qed.
+Example C19_survives_malformed_range_nonvacuous :
+  exists st', run_line (fun _ => None) ex_mid (bs "stat x[2-1]"%string) [] = Ok (st', false) /\ out_text st' = [bs "illegal hosts input"%string ++ [LF]].
+Proof. eexists. split; vm_compute; reflexivity. Qed.
+Print Assumptions C19_survives_malformed_range.
+
+(* unknown plugs: one line each *)
+Theorem C19_survives_unknown_plugs : forall hlc st ln sched w a rest c ts,
+  at_prompt st -> argv ln = w :: a :: rest -> cmd_of_word w = Some c -> hlc a = Some ts -> cyclic (s_tab st) = false ->
+  forallb (fun p => negb (name_valid (s_tab st) p)) ts = true ->
+  exists st', run_line hlc st ln sched = Ok (st', false) /\ at_prompt st' /\ same_cfg st' st /\ s_tstat st' = s_tstat st /\
+              s_out st' = map (fun p => (TUnknown p, bs "unknown plug specified: "%string ++ p ++ [LF])) ts.
+Proof. exact unknown_plugs_reported. Qed.
+Example C19_survives_unknown_plugs_nonvacuous :
+  exists st', run_line ex_hlc ex_mid (bs "on nosuch,Z9"%string) [] = Ok (st', false) /\
+              out_text st' = [bs "unknown plug specified: nosuch"%string ++ [LF]; bs "unknown plug specified: Z9"%string ++ [LF]].
+Proof. eexists. split; vm_compute; reflexivity. Qed.
+Print Assumptions C19_survives_unknown_plugs.
+
+(* bad host index in setplugs *)
+Theorem C19_survives_bad_index : forall hlc st ln sched a0 a1 rest p ps idx,
+  at_prompt st -> argv ln = bs "setplugs"%string :: a0 :: a1 :: rest -> hlc a0 = Some (p :: ps) -> hlc a1 = Some [idx] ->
+  bad_index st idx = true ->
+  exists st' l, run_line hlc st ln sched = Ok (st', false) /\ at_prompt st' /\
+                s_tab st' = s_tab (remove_initial_plugs st) /\ s_tstat st' = s_tstat st /\ out_text st' = [l] /\
+                (l = bs "setplugs: invalid hostindex "%string ++ idx ++ bs " specified"%string ++ [LF] \/
+                 exists d, l = bs "setplugs: hostindex "%string ++ d ++ bs " out of range"%string ++ [LF]).
+Proof. exact bad_index_reported. Qed.
+Example C19_survives_bad_index_nonvacuous :
+  bad_index ex_mid (bs "99"%string) = true /\ bad_index ex_mid (bs "-1"%string) = true /\ bad_index ex_mid (bs "1x"%string) = true /\
+  bad_index ex_mid (bs "3"%string) = false.
+Proof. repeat split; vm_compute; reflexivity. Qed.
+Print Assumptions C19_survives_bad_index.
+
+(* ------------------------------------------------------------------------------------------------------------------
+   "requesting 'on' for an ancestor and its descendant together refuses all targets": any number of targets, any depth;
+   one refusal per target (as a multiset: [order] is a permutation of the targets), nothing is switched. *)
+Theorem C19_on_parent_and_child_refused : forall hlc st ln sched w a rest ts p q,
+  at_prompt st -> argv ln = w :: a :: rest -> cmd_of_word w = Some COn -> hlc a = Some ts -> cyclic (s_tab st) = false ->
+  forallb (has_path st COn) ts = true ->
+  In p ts -> In q ts -> p <> q -> is_desc (s_tab st) p q = true ->
+  exists st' order, run_line hlc st ln sched = Ok (st', false) /\ at_prompt st' /\ same_cfg st' st /\ s_tstat st' = s_tstat st /\ s_log st' = [] /\
+    Permutation order ts /\
+    results st' = map (fun t => (TResult t, t ++ bs ": cannot turn on parent and child"%string ++ [LF])) order.
+Proof. exact RedfishPhased.on_parent_and_child_refused. Qed.
+Example C19_on_parent_and_child_refused_nonvacuous :
+  (* L is two levels below R; S is unrelated and sits on the failing host: all three are refused *)
+  is_desc (s_tab ex_mid) (bs "L"%string) (bs "R"%string) = true /\
+  forallb (has_path ex_mid COn) [bs "S"%string; bs "L"%string; bs "R"%string] = true /\
+  (exists st', run_line ex_hlc ex_mid (bs "on S,L,R"%string) [] = Ok (st', false) /\ s_tstat st' = s_tstat ex_mid /\
+     out_text st' = [bs "S: cannot turn on parent and child"%string ++ [LF]; bs "R: cannot turn on parent and child"%string ++ [LF];
+                     bs "L: cannot turn on parent and child"%string ++ [LF]]).
+Proof.
+  repeat (split; [vm_compute; reflexivity|]). eexists.
+  split; [vm_compute; reflexivity|]. split; vm_compute; reflexivity.
+Qed.
+Print Assumptions C19_on_parent_and_child_refused.
+
+(* ------------------------------------------------------------------------------------------------------------------
+   Outside the domain of the rules the target is still answered and the prompt returns. *)
+(* F17 (repaired by b631ee2): an ancestor named in setplugs was never defined.  The proof unfolds Gen.GenRfp.f_dangling_parent:
+   on the unrepaired source the generator emits None, the model aborts at site_root_assert and this proof fails. *)
+Theorem C19_dangling_ancestor : forall hlc st ln sched w a rest c x,
+  at_prompt st -> argv ln = w :: a :: rest -> cmd_of_word w = Some c -> hlc a = Some [x] -> cyclic (s_tab st) = false ->
+  has_path st c x = true -> (forall r, find_root (s_tab st) x <> WFound r) ->
+  exists st', run_line hlc st ln sched = Ok (st', false) /\ at_prompt st' /\ same_cfg st' st /\ s_tstat st' = s_tstat st /\ s_log st' = [] /\
+              results st' = [(TResult x, x ++ bs ": ancestor plug not defined"%string ++ [LF])].
+Proof. exact RedfishFaults.dangling_ancestor_reported. Qed.
+Example C19_dangling_ancestor_nonvacuous :
+  has_path ex_dangling CStat (bs "a"%string) = true /\ find_root (s_tab ex_dangling) (bs "a"%string) = WNone /\
+  (exists st', run_line ex_hlc ex_dangling (bs "stat a"%string) [] = Ok (st', false) /\ out_text st' = [bs "a: ancestor plug not defined"%string ++ [LF]]).
+Proof. repeat (split; [vm_compute; reflexivity|]). eexists. split; vm_compute; reflexivity. Qed.
+Print Assumptions C19_dangling_ancestor.
+
+(* F20, the no-lost-waiter clause (repaired by 3d1e749): the root above the target (at ANY depth) cannot be queried because
+   it has no stat path.  The target is failed at once ("error" / "cannot perform ..., dependency error") and the prompt
+   returns.  The proof goes through Gen.GenRfp.fail_waiters_initial = true (`change ... with true`).
+   REFUTED for the unrepaired source: there the generator emits fail_waiters_initial = false, this proof does not check,
+   and the model run of the example below ends in Hang site_lost_waiter (waitcmds = [Leaf], nothing active, nothing
+   delayed: select() without descriptors, forever) -- corpus/C19/F20-*.json replays it on the C. *)
+Theorem C19_no_lost_waiter_unqueryable_root : forall hlc st ln sched w a rest c x root,
+  at_prompt st -> argv ln = w :: a :: rest -> cmd_of_word w = Some c -> hlc a = Some [x] -> cyclic (s_tab st) = false ->
+  has_path st c x = true -> find_root (s_tab st) x = WFound root -> root <> x -> has_path st CStat root = false ->
+  exists st' pdx pdr, lookup (s_tab st) x = Some pdx /\ lookup (s_tab st) root = Some pdr /\
+    run_line hlc st ln sched = Ok (st', false) /\ at_prompt st' /\ same_cfg st' st /\ s_tstat st' = s_tstat st /\ s_log st' = [] /\
+    results st' = [(TResult x, RedfishSteps.blocked_line (RedfishSingle.tmsg c x pdx) pdr SErr)] /\
+    In (TDiag, root ++ bs ": stat path not set"%string ++ [LF]) (s_out st').
+Proof. exact RedfishFaults.unqueryable_root_fails_waiter. Qed.
+Example C19_no_lost_waiter_unqueryable_root_nonvacuous :
+  has_path ex_nopath CStat (bs "Leaf"%string) = true /\ find_root (s_tab ex_nopath) (bs "Leaf"%string) = WFound (bs "Root"%string) /\
+  has_path ex_nopath CStat (bs "Root"%string) = false /\ fail_waiters_initial = true /\
+  (exists st', run_line ex_hlc ex_nopath (bs "stat Leaf"%string) [] = Ok (st', false) /\
+               out_text st' = [bs "Root: stat path not set"%string ++ [LF]; bs "Leaf: error"%string ++ [LF]]).
+Proof. repeat (split; [vm_compute; reflexivity|]). eexists. split; vm_compute; reflexivity. Qed.
+Print Assumptions C19_no_lost_waiter_unqueryable_root.
+
+(* ------------------------------------------------------------------------------------------------------------------
+   Where the hypotheses [at_prompt] and [ts_covers] come from: they hold when the helper starts and are kept by every
+   line that is not stat/on/off and by every single-target stat/on/off line inside the domain of the rules.
+   (Kept by several-target lines: part of the OPEN statement below.) *)
+Theorem C19_wf_init : forall hosts fail v, ts_covers (init hosts fail v) /\ at_prompt (init hosts fail v).
+Proof. exact RedfishReach.ts_covers_init. Qed.
+Print Assumptions C19_wf_init.
+Theorem C19_wf_management : forall hlc st ln sched st' q,
+  at_prompt st -> ts_covers st -> (forall w args, argv ln = w :: args -> cmd_of_word w = None) ->
+  run_line hlc st ln sched = Ok (st', q) -> ts_covers st'.
+Proof. exact RedfishReach.ts_covers_management. Qed.
+Print Assumptions C19_wf_management.
+Theorem C19_wf_single : forall hlc st ln sched w a rest c x st' q,
+  at_prompt st -> ts_covers st -> argv ln = w :: a :: rest -> cmd_of_word w = Some c -> hlc a = Some [x] ->
+  name_valid (s_tab st) x = true -> in_domain st c [x] = true ->
+  run_line hlc st ln sched = Ok (st', q) -> ts_covers st' /\ at_prompt st'.
+Proof. exact RedfishReach.ts_covers_single. Qed.
+Example C19_wf_nonvacuous : ts_covers ex_on /\ at_prompt ex_on /\ length (s_tab ex_on) = 5%nat.
+Proof. split; [apply ts_covers_b; reflexivity|]. split; [apply at_prompt_b; reflexivity | reflexivity]. Qed.
+Print Assumptions C19_wf_single.
+
+(* ------------------------------------------------------------------------------------------------------------------
+   (* OPEN *)  The refinement for SEVERAL targets on one line:
+
+   Theorem C19_rules : forall hlc st ln sched c ts,
+     at_prompt st -> ts_covers st -> power_line hlc st ln = Some (c, ts) -> in_domain st c ts = true -> closed_tab (s_tab st) = true ->
+     exists st', run_line hlc st ln sched = Ok (st', false) /\ at_prompt st' /\ same_cfg st' st /\
+                 Permutation (map snd (results st')) (fst (expected_of st c ts)) /\
+                 same_status (statmap_of (s_tstat st')) (snd (expected_of st c ts)).
+
+   (which contains C19_terminates / C19_one_line_each / C19_no_lost_waiter of DESIGN.md §5 for every release schedule).
+   PROVED of it: the case of one target at any depth (C19_rules_single: there the helper walks the ancestor chain
+   root-first, one silent query per level, fuel = depth + 4 <= fuel_for), the case `on` with an ancestor/descendant pair
+   among any number of targets (C19_on_parent_and_child_refused), every case where all targets are unknown
+   (C19_survives_unknown_plugs).
+   MISSING: the invariant of the shell loop for several waiters -- every message on waitcmds has an ancestor with a
+   live (not yet processed in this pass, or delayed) message that will call process_waiters for it, live handlers above
+   one waiter lie on one plug, and the potential  sum(active: 3 for an operation, 1 for a query or poll) + 2*|delayed|
+   + sum(waiters: 3 + 2*(levels below the handler))  decreases in every pass under any release schedule; with it
+   fuel_for suffices.  The interplay with plugname_active (stale entries of the pass copy count as active) is what makes
+   it long.  Until then the several-target case rests on the R-RFP correspondence (random sessions, <= 14 plugs, <= 4
+   levels, two release schedules) and the small-scope sweep of props/C19.py, with the extracted RedfishSpec.expected
+   as the monitor; the examples below are computations, not the theorem. *)
+Example C19_rules_several_targets_computed :
+  (* three levels, mixed failing hosts, `off R,L,T` with R, M, L on and a slow release schedule: L is answered through
+     R's own off (ok), T is refused because S's host fails, R is switched off and takes M and L along *)
+  (exists st', run_line ex_hlc ex_on (bs "off R,L,T"%string) [0; 0; 1; 0; 1]%nat = Ok (st', false) /\ idle st' = true /\
+     spec_line ex_hlc ex_on (bs "off R,L,T"%string) =
+       Some ([bs "R: ok"%string ++ [LF]; bs "T: cannot perform off, dependency error (host=h3 plug=S)"%string ++ [LF]; bs "L: ok"%string ++ [LF]],
+             statmap_of (s_tstat st')) /\
+     out_text st' = [bs "T: cannot perform off, dependency error (host=h3 plug=S)"%string ++ [LF]; bs "R: ok"%string ++ [LF]; bs "L: ok"%string ++ [LF]]).
+Proof.
+  eexists. split; [vm_compute; reflexivity|]. split; [vm_compute; reflexivity|]. split; vm_compute; reflexivity.
+Qed.
